@@ -6,7 +6,7 @@ wt="$1"; name="$2"; kind="${3:-_seed}"
 d="$wt/$kind/$name"
 cd "$wt" || exit 2
 git checkout -q -- PyMatterSim
-run_demo() { (cd /tmp && PYTHONPATH="$wt" timeout 1800 /venv/bin/python "$d/demo.py" > "$d/.demo_out_$1.txt" 2>&1; echo $?); }
+run_demo() { if [ -n "$SKIP_DEMO" ]; then echo skip; else (cd /tmp && PYTHONPATH="$wt" timeout 1800 /venv/bin/python "$d/demo.py" > "$d/.demo_out_$1.txt" 2>&1; echo $?); fi; }
 p0=$(run_demo pristine)
 git apply "$d/patch.diff" 2>/dev/null || { echo "$name: PATCH-FAIL"; exit 1; }
 p1=$(run_demo patched)
